@@ -1555,6 +1555,9 @@ def run_concrete(harness, assignment, params):
     except AssumptionFailed as a:
         out["status"] = "assumption_failed"
         out["exc"] = str(a)
+    except Abort as a:  # the harness cut this path (outside the claim): the replay is not usable either
+        out["status"] = "assumption_failed"
+        out["exc"] = "cut: " + str(a)
     except KeyError as e:
         if e.args and isinstance(e.args[0], str) and e.args[0] not in assignment and not c.obligations and _looks_like_input(e, assignment):
             out["status"] = "missing_input"
